@@ -528,7 +528,8 @@ fn worker<F: Fn() -> Outcome + Sync>(
                 }
                 Ok(o) => {
                     local.observations.insert(o.obs);
-                    if rr.spent.0 + rr.spent.1 > 0 {
+                    // non-trivial: used a deviation, or took at least two explored choices
+                    if rr.spent.0 + rr.spent.1 > 0 || rr.frames.len() >= 2 {
                         local.nontrivial_executions += 1;
                         local.nontrivial_observations.insert(o.obs);
                     }
